@@ -1,5 +1,7 @@
 package server
 
+import "sync"
+
 // ---- C12: the state file is always one complete, current snapshot ----
 
 func vStateFile() []byte {
@@ -115,4 +117,65 @@ func HarnessSnapshotOverlap() {
 	vAssert(vLiveTempFiles() == 0, "overlap: no temporary snapshot file is left behind")
 	vAssert(vRaceCount() == 0, "overlap: no data race between the two commands")
 	vCover(true, "overlap explored")
+}
+
+// Directed variant: the first command is descheduled right before it takes the snapshot lock for the first time and
+// resumes only when the second command has returned. (If anything of the snapshot was prepared before the lock, it is
+// stale by then.)
+var vSnapshotLockOf *Router
+var vSnapshotLockHeldOnce bool
+
+//verif:stub (*sync.Mutex).Lock harness=HarnessSnapshotOverlapDirected
+func stubMutexLockDirected(mu *sync.Mutex) {
+	if vSnapshotLockOf != nil && mu == &vSnapshotLockOf.snapshotLock && !vSnapshotLockHeldOnce && vGoTag == "first" {
+		vSnapshotLockHeldOnce = true
+		vHeld++
+		vBlockUntil(func() bool { return vRelease })
+	}
+	mu.Lock()
+}
+
+var vGoTag string
+
+func HarnessSnapshotOverlapDirected() {
+	vT2(0, 4)
+	vSortMode = 0
+	vSnapshotReal = true
+	vMapOrderFixed(true)
+	topts := TargetOptions{HealthCheckConfig: HealthCheckConfig{Path: "/up", Interval: 1000, Timeout: 1000}}
+	r := NewRouter("/state")
+	for _, n := range []string{"a", "b"} {
+		svc, err := NewService(n, ServiceOptions{Hosts: []string{n}}, topts)
+		vAssert(err == nil, "overlap: service builds")
+		svc.active = vDeployedBalancer([]string{n + "0:80"}, topts)
+		vAssert(r.installService(svc) == nil, "overlap: install")
+	}
+	vSnapshotLockOf = r
+	msg := vString("msg", 2)
+	done := 0
+	go func() {
+		vGoTag = "first" // (only this goroutine runs until it is held: the tag is read before any switch)
+		r.StopService("a", 0, msg)
+		done++
+	}()
+	vBlockUntil(func() bool { return vHeld == 1 || done == 1 })
+	vGoTag = ""
+	removeB := vChoose("second_command_removes", 2) == 1
+	if removeB {
+		r.RemoveService("b")
+	} else {
+		r.PauseService("b", 0, 1000)
+	}
+	vRelease = true
+	vBlockUntil(func() bool { return done == 1 })
+	next := NewRouter("/state")
+	vAssert(next.RestoreLastSavedState() == nil, "overlap: the state file restores")
+	a, b := next.services.Get("a"), next.services.Get("b")
+	vAssert(a != nil && a.pauseController.GetState() == PauseStateStopped && a.pauseController.StopMessage == msg, "overlap: once both commands returned the file has the first command's effect")
+	if removeB {
+		vAssert(b == nil, "overlap: ... and the second command's effect (service removed)")
+	} else {
+		vAssert(b != nil && b.pauseController.GetState() == PauseStatePaused, "overlap: ... and the second command's effect (service paused)")
+	}
+	vCover(vHeld == 1, "first command held at the snapshot lock")
 }
